@@ -8,7 +8,13 @@ bodies then go through the real parse_sst (vh c12_sst).
 Raw cases: mutated encodings (truncated fragments, wrong counts/lengths/flags, empty CONTINUEs),
 compared on outcome class including panic and alloc.  Single-string records (LABEL, STRING,
 BoundSheet8, LABELSST) and RecordIter framing likewise.  End to end: generated .xls files whose SST
-is spread over many CONTINUE records, opened with Xls::new + sheet_names + worksheet_range."""
+is spread over many CONTINUE records, opened with Xls::new + sheet_names + worksheet_range.
+Formula string results (FORMULA, STRING, CONTINUE*): the extracted writer fstring_encode (vm
+c12_fstrenc) cuts the character data at every position (also inside a surrogate pair), every
+fragment with its own flag byte and any 8/16-bit mixture, lengths 1..9000 (the record limit forces
+CONTINUE records beyond 8221 one-byte / 4110 two-byte characters); the String arm of the sheet loop
+has no hook, so these go through generated files (Xls::new + worksheet_range) with the model
+reading the same Workbook stream (wb_strings -> string_arm)."""
 import os, struct, sys
 sys.path.insert(0, os.path.dirname(os.path.dirname(os.path.abspath(__file__))))
 import vlib, biffgen
@@ -16,7 +22,7 @@ import vlib, biffgen
 ASSUMPTIONS = [
     "code page 1200 (BIFF8 Unicode strings); BIFF2-5 code-page strings are not modelled",
     "SST count below 2^31 and cch below 2^16 as the record fields impose; a string's formatting runs and ExtRst are opaque bytes",
-    "a STRING/LABEL value longer than one record (CONTINUE after a non-SST record) is outside the statement and the model",
+    "a formula's STRING value may continue in CONTINUE records (modelled: string_arm); a LABEL value longer than one record is outside the statement and the model",
 ]
 
 # ---------------------------------------------------------------- text generation
@@ -549,7 +555,14 @@ def run_coq_workbooks(ctx, n, tag):
             for _ in range(rng.randrange(0, 3)):
                 us = gen_units(rng, rng.choice(KINDS), rng.choice([0, 1, 2, 5, 40]))
                 hb = 0 if (all(u < 256 for u in us) and rng.random() < 0.5) else 1
-                cells.append("%s:%d:%d:%d:%s" % (rng.choice("lf"), row, rng.randrange(0, 4), hb, units_hex(us)))
+                if us and rng.random() < 0.35:          # a formula string continued in CONTINUE records
+                    pos = sorted(rng.randrange(0, len(us)) for _ in range(rng.choice([1, 1, 2, 4])))
+                    hb0, cuts = fstr_layout(rng, us, rng.choice(["all16", "16then8", "8then16", "alt", "random"]), pos)
+                    cells.append("f:%d:%d:%d:%s:%s" % (row, rng.randrange(0, 4), hb0, units_hex(us),
+                                                      "/".join("%d.%d" % c for c in cuts)))
+                    ctx.count("wb:fstring-continued")
+                else:
+                    cells.append("%s:%d:%d:%d:%s" % (rng.choice("lf"), row, rng.randrange(0, 4), hb, units_hex(us)))
                 row += rng.randrange(1, 3)
             sheets.append("%d,%s,%s" % (hbn, units_hex(nm), "+".join(cells)))
         lines.append("%s%d\tc12_wbenc\t%d\t%s\t%s\t%s" % (
@@ -578,6 +591,252 @@ def run_coq_workbooks(ctx, n, tag):
         ctx.traces += 1
         ctx.count("wb:coq-written")
         ctx.nontrivial(l.split("\t", 2)[2])
+
+# ---------------------------------------------------------------- formula string results (STRING + CONTINUE)
+MAXREC = 8224          # [MS-XLS] record body limit
+
+def fstr_line(cid, hb0, units, cuts, trail):
+    return "%s\tc12_fstrenc\t%d\t%s\t%s\t%s" % (
+        cid, hb0, units_hex(units) or "-", "+".join("%d:%d" % c for c in cuts) or "-",
+        bytes(trail).hex() or "-")
+
+def fstr_layout(rng, units, mode, pos, fit=True):
+    """(hb0, cuts) for the cut positions pos (sorted, each < len(units), repeats = empty segments).
+    mode: all16 | all8 (where the units allow) | 16then8 | 8then16 | alt | random.
+    fit: segments are cut further so that every record body stays within 8224 bytes."""
+    n = len(units)
+    bounds = [0] + list(pos) + [n]
+    segs = [(bounds[i], bounds[i + 1]) for i in range(len(bounds) - 1)]
+    out = []                         # [(a, b, hb)]
+    for k, (a, b) in enumerate(segs):
+        can8 = all(u < 256 for u in units[a:b])
+        want8 = {"all16": False, "all8": True, "16then8": k > 0, "8then16": k == 0,
+                 "alt": k % 2 == 1, "random": rng.random() < 0.5}[mode]
+        hb = 0 if (can8 and want8) else 1
+        cap = (MAXREC - (3 if not out else 1)) // (2 if hb else 1)
+        while fit and b - a > cap:
+            out.append((a, a + cap, hb)); a += cap
+            cap = (MAXREC - 1) // (2 if hb else 1)
+        out.append((a, b, hb))
+    cuts = [(out[i][1] - out[i][0], out[i + 1][2]) for i in range(len(out) - 1)]
+    return out[0][2], cuts
+
+def mixed_units(rng, n):
+    """blocks of different repertoires, so that 8-bit and 16-bit fragments can alternate; returns
+    (units, block boundaries)"""
+    us, marks = [], []
+    while len(us) < n:
+        k = rng.choice(["ascii", "latin1", "bmp", "astral", "latin1", "ascii"])
+        m = min(n - len(us), rng.choice([1, 2, 7, 40, 300, 2000, 5000]))
+        us += gen_units(rng, k, m)
+        marks.append(len(us))
+    return us[:n], [m for m in marks if m < n]
+
+FSTR_LENGTHS = [1, 2, 3, 5, 8, 20, 60, 150, 300, 1000, 2055, 4109, 4110, 4111, 4112, 5000, 8219, 8220, 8221,
+                8222, 8223, 8224, 8500, 9000]
+
+def fstr_cases(ctx):
+    """[(units, hb0, cuts, trail, label)]"""
+    rng = ctx.rng
+    out = []
+    # 1. boundary: every cut position x both packings on both sides; double cut; flag-only tail
+    samples = [[0x61], [0x61, 0x62, 0x63], [0xE9, 0x41, 0xFF], [0x4E2D, 0x61, 0xFEFF], [0xFEFF, 0x61],
+               [0x61, 0xD83D, 0xDE00, 0x62], [0xD83D, 0xDE00], [0xDE00, 0xD83D], [0xD83D],
+               [0x61, 0x62, 0x63, 0x64, 0x65, 0x66]]
+    for us in samples:
+        n = len(us)
+        for hb0 in (0, 1):
+            if hb0 == 0 and any(u >= 256 for u in us):
+                continue
+            out.append((us, hb0, [], [], "boundary:nocut"))
+            out.append((us, hb0, [], [rng.randrange(2)], "boundary:flag-only-tail"))
+        for p in range(0, n):
+            for hb0 in (0, 1):
+                for hb1 in (0, 1):
+                    a, b = us[:p], us[p:]
+                    if (hb0 == 0 and any(u >= 256 for u in a)) or (hb1 == 0 and any(u >= 256 for u in b)):
+                        continue
+                    out.append((us, hb0, [(p, hb1)], [], "boundary:cut%d%d" % (hb0, hb1)))
+            out.append((us, 1, [(p, 1), (0, 1)], [1, 0], "boundary:empty-segment"))
+    # every character in a record of its own, packings alternating where possible
+    us = [0x61, 0xE9, 0x4E2D, 0x62, 0xD83D, 0xDE00, 0x63, 0x64]
+    hb0, cuts = fstr_layout(rng, us, "alt", list(range(1, len(us))), fit=False)
+    out.append((us, hb0, cuts, [], "boundary:one-char-per-record"))
+    # 2. lengths 1 .. 9000 in every packing; natural cuts (only where the record limit forces them)
+    #    and extra random cuts
+    for n in FSTR_LENGTHS + [rng.randrange(1, 9001) for _ in range(ctx.scale(6, 200))]:
+        for kind in ("ascii", "latin1", "mixed", "astral" if n % 2 else "bmp"):
+            if kind == "mixed":
+                us, marks = mixed_units(rng, n)
+            else:
+                us, marks = gen_units(rng, kind, n), []
+            for mode in ("all16", "all8", "16then8", "8then16", "random"):
+                if kind in ("astral", "bmp") and mode in ("all8", "8then16"):
+                    continue
+                style = rng.choice(["natural", "random", "random"]) if n > 1 else "natural"
+                if style == "natural":
+                    pos = list(marks) if mode != "all16" else []
+                else:
+                    pos = sorted(set(marks) | set(rng.randrange(0, n) for _ in range(rng.choice([1, 2, 3, 6]))))
+                    if rng.random() < 0.2 and pos:
+                        pos.append(pos[0]); pos.sort()
+                if mode in ("16then8", "8then16") and not pos and n > 1:
+                    pos = [rng.randrange(1, n)]
+                hb0, cuts = fstr_layout(rng, us, mode, pos)
+                trail = [rng.randrange(2)] if rng.random() < 0.1 else []
+                out.append((us, hb0, cuts, trail, "len:%s:%s:%s" % (
+                    "1-8" if n <= 8 else "9-300" if n <= 300 else "301-4110" if n <= 4110 else "4111-8221" if n <= 8221 else ">8221",
+                    kind, mode)))
+    # 3. random short and medium strings, many cuts
+    for _ in range(ctx.scale(500, 8000)):
+        kind = rng.choice(KINDS + ["mixed"])
+        n = rng.choice([1, 2, 3, 4, 6, 10, 30, 100, 400])
+        us, marks = mixed_units(rng, n) if kind == "mixed" else (gen_units(rng, kind, n), [])
+        k = rng.choice([0, 1, 1, 2, 3, 5])
+        pos = sorted(list(rng.randrange(0, n) for _ in range(k)) + (marks if rng.random() < 0.5 else []))
+        hb0, cuts = fstr_layout(rng, us, rng.choice(["all16", "all8", "16then8", "8then16", "alt", "random", "random"]), pos)
+        trail = [rng.randrange(2) for _ in range(rng.choice([1, 2]))] if rng.random() < 0.08 else []
+        out.append((us, hb0, cuts, trail, "random:" + kind))
+    return out
+
+EMPTY_SST = struct.pack("<II", 0, 0)
+
+def fstr_file(path, cells):
+    """cells = [(row, col, STRING body, CONTINUE bodies)]; after every formula a LABEL sentinel on the
+    next row; returns the Workbook stream"""
+    recs = []
+    for (row, col, data, conts) in cells:
+        recs.append(("fstringc", row, col, data, conts))
+        recs.append(("label", row + 1, 0, 0, [0x7A, 0x30 + (row // 2) % 10]))
+    wb = biffgen.workbook_stream(EMPTY_SST, [], [(0, [0x46], recs)])
+    open(path, "wb").write(biffgen.xls_file(wb))
+    return wb
+
+def parse_open(ans):
+    """ok:<name>=r:c:hex,... (one sheet) -> {(r, c): hex}; anything else -> None"""
+    if not ans or not ans.startswith("ok:") or "=" not in ans or "|" in ans:
+        return None
+    body = ans.split("=", 1)[1]
+    d = {}
+    if body:
+        for t in body.split(","):
+            r, c, v = t.split(":", 2)
+            d[(int(r), int(c))] = v
+    return d
+
+def run_fstring_cases(ctx, cases, tag, per_file=6):
+    rng = ctx.rng
+    tmp = os.path.join(vlib.CACHE, "tmp", "c12")
+    os.makedirs(tmp, exist_ok=True)
+    lines = [fstr_line("%s%d" % (tag, i), c[1], c[0], c[2], c[3]) for i, c in enumerate(cases)]
+    enc = ctx.run_model(lines)
+    items = []
+    for i, c in enumerate(cases):
+        cid = "%s%d" % (tag, i)
+        a = enc.get(cid)
+        if a is None or a.count("|") != 5:
+            ctx.disagreements.append({"function": "fstring_encode", "case": lines[i], "impl": None, "model": a}); continue
+        f = a.split("|")
+        data = bytes.fromhex(f[4])
+        conts = [] if f[5] == "-" else [bytes.fromhex(x) for x in f[5].split(",")]
+        if len(data) > 65535 or any(len(x) > 65535 for x in conts):
+            continue
+        items.append((cid, lines[i], f, data, conts, c))
+
+    def open_groups(groups, suffix):
+        """groups = [[item, ...]]: one file per group; returns per item (impl cell text, model cell text, path)"""
+        il, ml, where = [], [], {}
+        for g, grp in enumerate(groups):
+            fid = "%sF%s%d" % (tag, suffix, g)
+            path = os.path.join(tmp, fid + ".xls")
+            cells = [(2 * j, j % 3, it[3], it[4]) for j, it in enumerate(grp)]
+            wb = fstr_file(path, cells)
+            il.append("%s\tc12_open\t%s" % (fid, path))
+            ml.append("%s\tc12_open\t%s" % (fid, wb.hex()))
+            where[fid] = (grp, path)
+        impl, model = ctx.run_impl(il), ctx.run_model(ml)
+        res, failed = {}, []
+        for fid, (grp, path) in where.items():
+            di, dm = parse_open(impl.get(fid)), parse_open(model.get(fid))
+            ok_file = di is not None and all(di.get((2 * j + 1, 0)) == bytes([0x7A, 0x30 + j % 10]).hex() for j in range(len(grp)))
+            if not ok_file and len(grp) > 1:
+                failed.append(grp); continue
+            for j, it in enumerate(grp):
+                ti = ("ok:" + di.get((2 * j, j % 3), "<no cell>")) if di is not None else (impl.get(fid) or "none")
+                if di is not None and not ok_file:
+                    ti += " (the LABEL after it: %s)" % di.get((2 * j + 1, 0))
+                tm = ("ok:" + dm.get((2 * j, j % 3), "<no cell>")) if dm is not None else (model.get(fid) or "none")
+                res[it[0]] = (ti, tm, path)
+        return res, failed
+
+    groups = [items[k:k + per_file] for k in range(0, len(items), per_file)]
+    res, failed = open_groups(groups, "g")
+    if failed:                      # a file that did not read as a whole: every cell in a file of its own
+        r2, _ = open_groups([[it] for grp in failed for it in grp], "s")
+        res.update(r2)
+    keep = set()
+    for (cid, line, f, data, conts, c) in items:
+        units, hb0, cuts, trail, label = c
+        ti, tm, path = res[cid]
+        py_spec = "ok:" + utf8hex(utf16_spec(units))
+        before = flagged(ctx)
+        classify_structured(ctx, "%s\t(file %s)" % (line, path), ti, [f[0], f[1], f[2], tm],
+                            "String arm (Xls::new+worksheet_range)", py_spec)
+        if flagged(ctx) != before:
+            keep.add(path)
+        if f[3] != tm:              # the arm alone and the arm inside the workbook model must agree
+            ctx.disagreements.append({"function": "string_arm vs wb_strings", "case": line, "impl": tm, "model": f[3]})
+        ctx.traces += 1
+        ctx.count("fstr:" + label)
+        ctx.count("fstr:continues:%s" % ("0" if not conts else "1" if len(conts) == 1 else "2-3" if len(conts) < 4 else "4+"))
+        hbs = [hb0] + [h for _, h in cuts]
+        ctx.count("fstr:packing:%s" % ("8" if not any(hbs) else "16" if all(hbs) else "16->8.." if hbs[0] else "8->16.."))
+        if has_pair_cut(units, (0, hb0, cuts)): ctx.count("fstr:pair_cut")
+        if trail: ctx.count("fstr:flag-only-tail")
+        if conts:
+            ctx.nontrivial(line.split("\t", 2)[2][:4000])
+        if len(ctx.samples) < 7 and conts and len(units) < 12:
+            ctx.sample({"formula_string_case": line.split("\t", 2)[2], "impl": ti, "impl_equals_model": ti == tm})
+    for g in os.listdir(tmp):
+        pth = os.path.join(tmp, g)
+        if g.startswith(tag + "F") and pth not in keep:
+            drop_file(pth)
+    # malformed: single faults in the STRING / CONTINUE run, outcome compared with the model
+    il, ml = [], []
+    for (cid, line, f, data, conts, c) in items:
+        if not conts or len(c[0]) > 600 or rng.random() < 0.5:
+            continue
+        d2, c2 = bytearray(data), [bytearray(x) for x in conts]
+        kind = rng.randrange(7)
+        if kind == 0:
+            c2 = c2[:-1]                                              # last CONTINUE lost
+        elif kind == 1:
+            c2[rng.randrange(len(c2))] = bytearray()                  # an empty CONTINUE
+        elif kind == 2:
+            d2[0:2] = struct.pack("<H", (struct.unpack("<H", d2[0:2])[0] + rng.choice([1, 2, 300])) & 0xFFFF)
+        elif kind == 3:
+            d2[0:2] = struct.pack("<H", max(struct.unpack("<H", d2[0:2])[0] - 1, 0))
+        elif kind == 4:
+            k = rng.randrange(len(c2))
+            if c2[k]: c2[k][0] ^= 1                                   # flag of a fragment flipped
+        elif kind == 5:
+            k = rng.randrange(len(c2)); c2[k] = c2[k][:rng.randrange(0, len(c2[k]) + 1)]
+        else:
+            d2 = d2[:rng.randrange(0, len(d2) + 1)]                   # STRING body cut (below 3 bytes: parse_string)
+        fid = cid + "M"
+        path = os.path.join(tmp, fid + ".xls")
+        wb = fstr_file(path, [(0, 0, bytes(d2), [bytes(x) for x in c2])])
+        il.append("%s\tc12_open\t%s" % (fid, path)); ml.append("%s\tc12_open\t%s" % (fid, wb.hex()))
+    impl, model = ctx.run_impl(il), ctx.run_model(ml)
+    for l in il:
+        fid = l.split("\t", 1)[0]
+        ctx.traces += 1
+        ctx.count("fstr:malformed:%s" % (impl.get(fid) or "none").split(":", 1)[0])
+        if impl.get(fid) != model.get(fid):
+            ctx.disagreements.append({"function": "String arm(malformed STRING/CONTINUE run)", "case": l,
+                                      "impl": impl.get(fid), "model": model.get(fid)})
+        else:
+            drop_file(l.split("\t")[2])
 
 # ---------------------------------------------------------------- corpus
 CORPUS_RAW = [
@@ -646,6 +905,7 @@ def run(ctx):
     run_record_cases(ctx, ctx.scale(2000, 30000), "r")
     run_files(ctx, ctx.scale(200, 3000), "f")
     run_coq_workbooks(ctx, ctx.scale(200, 3000), "g")
+    run_fstring_cases(ctx, fstr_cases(ctx), "h")
 
 def search(ctx):
     rng = ctx.rng
@@ -656,6 +916,7 @@ def search(ctx):
     run_sst_cases(ctx, tabs, "s")
     run_cell_cases(ctx, ctx.scale(8000, 50000), "sc")
     run_files(ctx, ctx.scale(300, 2000), "sf")
+    run_fstring_cases(ctx, fstr_cases(ctx), "sh")
 
 def replay(ctx, rep):
     case = rep.get("case")
@@ -675,6 +936,16 @@ def replay(ctx, rep):
         path = os.path.join(tmp, "replay.xls")
         open(path, "wb").write(biffgen.xls_file(bytes.fromhex(f[4])))
         impl = ctx.run_impl(["%s\tc12_open\t%s" % (cid, path)]).get(cid)
+    elif cmd == "c12_fstrenc":
+        line = "\t".join(parts[:6])
+        enc = ctx.run_model([line]).get(cid, "")
+        f = enc.split("|")
+        print("model side:", "|".join(f[:4])[:2000])
+        tmp = os.path.join(vlib.CACHE, "tmp", "c12"); os.makedirs(tmp, exist_ok=True)
+        path = os.path.join(tmp, "replay.xls")
+        fstr_file(path, [(0, 0, bytes.fromhex(f[4]), [] if f[5] == "-" else [bytes.fromhex(x) for x in f[5].split(",")])])
+        d = parse_open(ctx.run_impl(["%s\tc12_open\t%s" % (cid, path)]).get(cid))
+        impl = ("ok:" + d.get((0, 0), "<no cell>")) if d is not None else "err"
     elif cmd == "c12_cellenc":
         enc = ctx.run_model([case]).get(cid, "")
         f = enc.split("|")
